@@ -153,7 +153,30 @@ pub struct RightsWorld {
 /// maximum row size of the instances of this world, in bytes
 pub const MAX_ROW_BYTES: u64 = 1024;
 
+/// one mutation never carries two entries for the same key in one list, nor two rights for the same
+/// entity in one group: which of two contradictory entries of the same date wins is not defined
+pub fn dedupe(spec: &GroupSpec, nkeys: usize) -> GroupSpec {
+    let mut out = GroupSpec { rights: vec![], users: vec![], user_admins: vec![] };
+    for r in &spec.rights {
+        if !out.rights.iter().any(|x: &RightSpec| x.entity % 3 == r.entity % 3) {
+            out.rights.push(r.clone());
+        }
+    }
+    for u in &spec.users {
+        if !out.users.iter().any(|x| x.0 as usize % nkeys == u.0 as usize % nkeys) {
+            out.users.push(*u);
+        }
+    }
+    for u in &spec.user_admins {
+        if !out.user_admins.iter().any(|x| x.0 as usize % nkeys == u.0 as usize % nkeys) {
+            out.user_admins.push(*u);
+        }
+    }
+    out
+}
+
 fn group_text(spec: &GroupSpec, keys: &[String], p: &mut Parameters, prefix: &str) -> String {
+    let spec = &dedupe(spec, keys.len());
     let mut s = String::from("{ name:\"g\" ");
     if !spec.rights.is_empty() {
         s.push_str("rights:[");
